@@ -238,6 +238,26 @@ func main() {
 		return err != nil
 	}()
 
+	// do the rotations refuse a target that is a network actor? (probed; fix 2093997)
+	actorCheck := func() bool {
+		c, _ := base.CacheContext()
+		src, tgt := sdk.AccAddress("c16_probe_act_src___"), sdk.AccAddress("c16_probe_act_tgt___")
+		app.RecoveryKeeper.SetRecoveryToken(c, recoverytypes.RecoveryToken{Address: src.String(), Token: "rr/c16probe2", RrSupply: sdk.NewInt(10)})
+		coins := sdk.NewCoins(sdk.NewInt64Coin("rr/c16probe2", 10))
+		if err := app.BankKeeper.MintCoins(c, recoverytypes.ModuleName, coins); err != nil {
+			panic(err)
+		}
+		if err := app.BankKeeper.SendCoinsFromModuleToAccount(c, recoverytypes.ModuleName, rrHolder, coins); err != nil {
+			panic(err)
+		}
+		if err := gk.AddWhitelistPermission(c, govtypes.NewDefaultActor(tgt), govtypes.PermClaimValidator); err != nil {
+			panic(err)
+		}
+		_, err := recMS.RotateValidatorByHalfRRTokenHolder(sdk.WrapSDKContext(c), &recoverytypes.MsgRotateValidatorByHalfRRTokenHolder{
+			RrHolder: rrHolder.String(), Address: src.String(), Recovery: tgt.String()})
+		return err != nil
+	}()
+
 	// ---------------------------------------------------------------- observation
 	type snapT struct {
 		coq  string
@@ -924,6 +944,21 @@ func main() {
 		do(h, mkRegister(h.now+2, 5, [][2]string{{"web", "w5"}})) // changed
 		finish(h, "scripted:verified-records-through-rotations")
 	}
+	{
+		// rotation onto a target that is a network actor but holds no records (refused since 2093997):
+		// the administrator (permission holder without an account) by the secret path, a permission
+		// holder by the token-holder path; then the same rotations onto plain targets
+		h := start(0)
+		do(h, mkRegister(h.now, 0, [][2]string{{"moniker", "alice"}}))
+		do(h, mkRegister(h.now, 3, [][2]string{{"moniker", "val3"}}))
+		do(h, mkRotate(0, 6, true))
+		do(h, mkRotateRR(3, 2, true))
+		do(h, mkRotateRR(3, 6, true))
+		do(h, mkRotate(0, 4, true))
+		do(h, mkRotateRR(3, 5, true))
+		do(h, mkRegister(h.now+1, 4, [][2]string{{"moniker", "alice4"}}))
+		finish(h, "scripted:rotation-onto-network-actor")
+	}
 	for _, viaRR := range []bool{true, false} {
 		// rotation INTO an address that already holds a record under the same key (the token-holder path
 		// accepts any target; the secret path any target without an account), then a genesis round trip
@@ -997,7 +1032,7 @@ func main() {
 		if i == len(cfgs)-1 {
 			sep = ""
 		}
-		pre.WriteString(fmt.Sprintf("  mkCfg %s %s %s %s %s %s %s %s %s %s%s\n", hx.ZU(c.minTip), zlist(c.pc), zlist(c.pv), zlist(c.pn), zlist([]int{0, 1, 2, 3}), zlist(c.se), hx.B(delFix), hx.B(msgGuard), zlist(c.rr), hx.B(rotCheck), sep))
+		pre.WriteString(fmt.Sprintf("  mkCfg %s %s %s %s %s %s %s %s %s %s %s%s\n", hx.ZU(c.minTip), zlist(c.pc), zlist(c.pv), zlist(c.pn), zlist([]int{0, 1, 2, 3}), zlist(c.se), hx.B(delFix), hx.B(msgGuard), zlist(c.rr), hx.B(rotCheck), hx.B(actorCheck), sep))
 	}
 	pre.WriteString("].\n")
 	out.WriteFile("pre.v", pre.String())
@@ -1008,6 +1043,6 @@ func main() {
 	for _, c := range js {
 		nops += len(c.Ops)
 	}
-	out.WriteJSON("dist.json", map[string]interface{}{"seed": seed, "histories": len(js), "operations": nops, "by_kind_and_result": dist, "history_sizes": sizes, "delete_by_id_removes_index_entry": delFix, "whole_record_write_guards_unique_keys": msgGuard, "rotation_refuses_target_with_records": rotCheck})
+	out.WriteJSON("dist.json", map[string]interface{}{"seed": seed, "histories": len(js), "operations": nops, "by_kind_and_result": dist, "history_sizes": sizes, "delete_by_id_removes_index_entry": delFix, "whole_record_write_guards_unique_keys": msgGuard, "rotation_refuses_target_with_records": rotCheck, "rotation_refuses_network_actor_target": actorCheck})
 	fmt.Fprintf(os.Stderr, "c16: %d histories, %d operations\n", len(js), nops)
 }
